@@ -3,12 +3,12 @@ CONSTANTS
   Signers = {"s1"}
   Nonces <- MC_Nonces
   Routes = {"eth-dynamicfee","cosmos-direct"}
-  Quals = {"good","badsig","foreign"}
+  Quals = {"good"}
   MaxSub = 3
   MaxBlocks = 1
-  MaxEvents = 0
+  MaxEvents = 1
   MaxLen = 0
-  Defects = {"no_increment"}
+  Defects = {"rewrite_resets_sequence"}
 INVARIANT MInv_Once
 INVARIANT MInv_Executed
 PROPERTY MStep_P
